@@ -77,6 +77,44 @@ def r1(chk, prog):
                            "every dereference of the result is behind a null test (or the result is only stored/returned/tested)")
     chk.floor("C08.R1", sites, 35, "call sites of may-fail allocators and constructors")
     chk.tables["may_null_functions"] = sorted(mn)
+    # half-built objects: a field that may still be NULL when the object is handed to a function that dereferences that field
+    from ..nullflow import unguarded_field_derefs, maybe_null_field_at_call
+    chk.rule("C08.R1f", "an object whose pointer field was just assigned from a may-fail allocation is not passed, before a non-null test of "
+                        "that field dominates the call, to a function that dereferences the field without testing it (a destructor or reset "
+                        "routine run on a half-built object)")
+    fsum = unguarded_field_derefs(prog, sinks)
+    chk.tables["functions_dereferencing_a_field_unguarded"] = {"%s(arg %d)" % k: sorted(v) for k, v in sorted(fsum.items())}
+    nf = 0
+    for f in prog.all_functions():
+        P = None
+        for i in f.instrs():
+            if i.op != "call" or not i.callee:
+                continue
+            for ai in range(len(i.ops)):
+                fields = fsum.get((i.callee, ai))
+                if not fields:
+                    continue
+                if P is None:
+                    P = Paths(f, prog)
+                for field, wit in sorted(fields.items()):
+                    src = maybe_null_field_at_call(prog, f, P, i, ai, field, mn)
+                    if src is None:
+                        # only call sites where the field is assigned from an allocation in this function carry an obligation
+                        tgt = P.path(i.ops[ai]) + "->" + field if i.ops[ai].kind == "reg" else None
+                        if tgt and any(s.op == "store" and P.path(s.ops[1]) == tgt for s in f.instrs()):
+                            nf += 1
+                            chk.touched(f)
+                            chk.proven("C08.R1f", f.name, "%s(%s) with ->%s" % (i.callee, P.path(i.ops[ai]), field), i.locstr(),
+                                       "a non-null test of the field dominates the call (or it is not assigned from an allocation here)")
+                        continue
+                    nf += 1
+                    chk.touched(f)
+                    chk.refuted("C08.R1f", f.name, "%s(%s) with ->%s" % (i.callee, P.path(i.ops[ai]), field), i.locstr(),
+                                "%s->%s is assigned from %s at %s and may be NULL (allocation failure) when %s is called, which dereferences "
+                                "it without a test (%s)" % (P.path(i.ops[ai]), field, src.raw.split("=")[0].strip() if False else "a may-fail allocation",
+                                                            src.locstr(), i.callee, wit.locstr()),
+                                {"allocation_store": src.raw, "callee_deref": wit.raw})
+    chk.floor("C08.R1f", nf, 1, "calls passing an object with a freshly allocated field to a function that dereferences the field")
 
 
 def _is_serializer_indirect(f, i, P):
